@@ -117,6 +117,29 @@ class Ctx:
         self.counter += 1
         return f"{base}!{self.counter}"
 
+    def scope(self):
+        """temporary hypotheses (e.g. of an induction step): everything assumed inside is dropped on exit"""
+        c = self
+
+        class _Scope:
+            def __enter__(self_):
+                self_.nf, self_.np = len(c.facts), len(c.pc)
+                return c
+
+            def __exit__(self_, *a):
+                del c.facts[self_.nf:]
+                del c.pc[self_.np:]
+                c._fcache = {}
+                c._qs = None
+                return False
+
+        return _Scope()
+
+    def known_true(self, b):
+        if isinstance(b, bool):
+            return b
+        return self.known_false(z3.Not(b))
+
     # -- context-aware folding of special-value flags ------------------
     def known_false(self, b):
         """True iff the current hypotheses imply  not b  (cheap incremental query, cached; unknown -> False)"""
@@ -802,11 +825,16 @@ def xsqrt(a):
         if n >= 0 and math.isqrt(n) ** 2 == n and math.isqrt(d) ** 2 == d:
             return XR(Fraction(math.isqrt(n), math.isqrt(d)), npk=True)
     c = ctx()
-    s = z3.Real(c.fresh("sqrt"))
+    # sqrt as an uninterpreted function with its defining axiom instantiated at each argument: equal arguments give
+    # equal roots by congruence
+    s = SQRT_F(zr(a.v))
     okarg = band(a.fin(), rcmp(">=", a.v, 0))
     c.assume(bimp(okarg, band(s >= 0, s * s == zr(a.v))))
     nan = bor(a.nan, a.ninf, band(a.fin(), rcmp("<", a.v, 0)))
     return XR(s, nan, a.pinf, False, True)
+
+
+SQRT_F = z3.Function("sqrt_r", z3.RealSort(), z3.RealSort())
 
 
 def xisclose(a, b, atol, rtol):
